@@ -26,6 +26,11 @@ def scale(  # pylint: disable=dangerous-default-value  # always replaced by stat
     """
 
     data = numpy.array(data)
+    if data.dtype.kind in "biu":
+        # Integer storage is only a representation of the numbers: compute in
+        # floating point, so that `data - center` and `data**2` cannot wrap
+        # around when centering is disabled or the center is an integer.
+        data = data.astype(numpy.float64)
 
     if "ddof" not in _state:
         _state["ddof"] = ddof
